@@ -6,8 +6,10 @@ import time
 
 import vlib
 from harness import regions_common as rc
+from harness import c08x
 
 GEN = ['Regions']
+EXTRA_TARGETS = c08x.EXTRA_TARGETS
 LEVEL = 'proof'
 TRUSTED = [
     'Coq 8.16.1 kernel + vm_compute; theorems over Z/list are axiom-free (Print Assumptions output is recorded)',
@@ -334,10 +336,14 @@ def run(ctx, model_ok=True):
             tr, problems, known = rc.run_impl(D, ops, ctx.work)
             if known:
                 ctx.known_lines.append(text)
+    c08x.run_extra(ctx, model_ok)
 
 
 def search(ctx):
     rng = ctx.rng
+    extra = c08x.search_extra(ctx)
+    if extra:
+        return extra
     t0 = time.time()
     # exhaustive small alphabet first, then random
     for D in (2, 3):
@@ -370,6 +376,8 @@ def replay(ctx, obj):
         for b in obj.get('broken', []):
             print('  ', b.get('what'), str(b.get('detail', b.get('case', '')))[:400])
         return 1
+    if 'kind' in fi:
+        return c08x.replay_extra(ctx, fi)
     ops = [fix_op(o) for o in fi['ops']]
     p = impl_problem(fi['D'], ops, ctx.work)
     print('history:', [rc.g_op(o) for o in ops])
